@@ -4,6 +4,7 @@ usage: tools/show_fn.py [--patch P] Qual.name ..."""
 import ast, os, shutil, subprocess, sys, tempfile
 HERE = os.path.dirname(os.path.dirname(os.path.abspath(__file__)))
 sys.path.insert(0, HERE)
+from engine.selftest import package_part
 from engine.model import Model
 args = sys.argv[1:]
 patch = None
@@ -13,7 +14,7 @@ tmp = tempfile.mkdtemp(prefix="cinco-show-")
 try:
     shutil.copytree("/repo/cincoconfig", os.path.join(tmp, "cincoconfig"), ignore=shutil.ignore_patterns("__pycache__"))
     if patch:
-        subprocess.run(["patch", "-p1", "-s", "-i", patch], cwd=tmp, check=True)
+        subprocess.run(["patch", "-p1", "-s", "-i", package_part(patch)], cwd=tmp, check=True)
     m = Model(tmp)
     for q in args:
         for fn in m.functions:
